@@ -3,5 +3,6 @@ CONSTANT Dev = "mean_on_integers"
 INVARIANT FusionSound
 INVARIANT LpNormSound
 INVARIANT MeanSound
+INVARIANT NormLaws
 INVARIANT DigitizeLaws
 CHECK_DEADLOCK FALSE
